@@ -32,6 +32,9 @@ package encoding
 //@ spec func zz(v int64) uint64 = uint64((v << 1) ^ (v >> 63))
 //@ spec func unzz(u uint64) int64 = int64(u>>1) ^ -int64(u&1)
 //
+// result of an append-style function: the same window over the same object, or a freshly allocated object
+//@ spec func appendShape(r []byte, d []byte) bool = (sameobj(r, d) && off(r) == off(d) && cap(r) == cap(d)) || fresh(r)
+//
 //@ lemma zigzag_roundtrip(v int64, u uint64)
 //@   mode bv
 //@   ensures unzz(zz(v)) == v
@@ -41,6 +44,7 @@ package encoding
 //@ func Uint16ToBytes
 //@   mode bv
 //@   modifies dst[len(dst):cap(dst)]
+//@   ensures  shape: appendShape(result, dst)
 //@   ensures  length: len(result) == len(dst) + 2
 //@   ensures  prefix: result[:len(dst)] == old(dst[:])
 //@   ensures  value:  be16(result[len(dst):]) == u
@@ -51,6 +55,7 @@ package encoding
 //@ func Uint32ToBytes
 //@   mode bv
 //@   modifies dst[len(dst):cap(dst)]
+//@   ensures  shape: appendShape(result, dst)
 //@   ensures  length: len(result) == len(dst) + 4
 //@   ensures  prefix: result[:len(dst)] == old(dst[:])
 //@   ensures  value:  be32(result[len(dst):]) == u
@@ -61,6 +66,7 @@ package encoding
 //@ func Uint64ToBytes
 //@   mode bv
 //@   modifies dst[len(dst):cap(dst)]
+//@   ensures  shape: appendShape(result, dst)
 //@   ensures  length: len(result) == len(dst) + 8
 //@   ensures  prefix: result[:len(dst)] == old(dst[:])
 //@   ensures  value:  be64(result[len(dst):]) == u
@@ -71,6 +77,7 @@ package encoding
 //@ func Int64ToBytes
 //@   mode bv
 //@   modifies dst[len(dst):cap(dst)]
+//@   ensures  shape: appendShape(result, dst)
 //@   ensures  length: len(result) == len(dst) + 8
 //@   ensures  prefix: result[:len(dst)] == old(dst[:])
 //@   ensures  value:  be64(result[len(dst):]) == zz(v)
@@ -78,3 +85,283 @@ package encoding
 //@   mode bv
 //@   requires len(src) >= 8
 //@   ensures  roundtrip: result == unzz(be64(src))
+//
+// ---- variable-length integers (int.go): memory safety for arbitrary bytes, shape of the results ----
+//@ func VarInt64ListToBytes
+//@   mode bv
+//@   modifies dst[len(dst):cap(dst)]
+//@   ensures  shape: appendShape(result, dst)
+//@   ensures  grows: len(result) >= len(dst) + len(vs)
+//@   loop 0 invariant len(dst) >= old(len(dst)) + range_i && appendShape(dst, old(dst))
+//@   loop 1 invariant len(dst) >= old(len(dst)) + range_i && appendShape(dst, old(dst))
+//@   loop 1 decreases u
+//@ func VarUint64sToBytes
+//@   mode bv
+//@   modifies dst[len(dst):cap(dst)]
+//@   ensures  shape: appendShape(result, dst)
+//@   ensures  grows: len(result) >= len(dst) + len(us)
+//@   loop 0 invariant len(dst) >= old(len(dst)) + range_i && appendShape(dst, old(dst))
+//@   loop 1 invariant len(dst) >= old(len(dst)) + range_i && appendShape(dst, old(dst))
+//@   loop 1 decreases u
+//@ func BytesToVarInt64List
+//@   mode bv
+//@   modifies dst
+//@   ensures  tail: result1 == nil ==> sameobj(result0, src) && len(result0) <= len(src)
+//@   loop 0 invariant idx <= uint(len(src))
+//@   loop 1 invariant idx <= uint(len(src)) && startIdx < idx && idx - startIdx <= 10
+//@   loop 1 decreases uint(len(src)) - idx
+//@ func BytesToVarUint64s
+//@   mode bv
+//@   modifies dst
+//@   ensures  tail: result1 == nil ==> sameobj(result0, src) && len(result0) <= len(src)
+//@   loop 0 invariant idx <= uint(len(src))
+//@   loop 1 invariant idx <= uint(len(src)) && startIdx < idx && idx - startIdx <= 10
+//@   loop 1 decreases uint(len(src)) - idx
+//@ func BytesToVarUint64
+//@   mode bv
+//@   ensures  tail: sameobj(result0, src) && len(result0) <= len(src)
+//@   ensures  progress: len(src) > 0 && src[0] < 128 ==> len(result0) == len(src) - 1 && result1 == uint64(src[0])
+//
+// ---- pooled scratch objects: the pools hand out objects nobody else references (pool discipline, assumed) ----
+//@ func pool.Synced.Get
+//@   assumed sync.Pool wrapper (external generic code); pool discipline: a pooled object has no other live reference
+//@   ensures result == nil || fresh(result)
+//@ func pool.Synced.Put
+//@   assumed sync.Pool wrapper; the caller gives up the object
+//@ func bytes.BufferPool.Generate
+//@   assumed pkg/bytes buffer pool; pool discipline: the buffer and its backing array have no other live reference
+//@   ensures result != nil && fresh(result) && (result.Buf == nil || fresh(result.Buf))
+//@ func bytes.BufferPool.Release
+//@   assumed pkg/bytes buffer pool; the caller gives up the buffer
+//@ func GenerateInt64List
+//@   mode bv
+//@   requires size >= 0
+//@   ensures  result != nil && fresh(result) && len(result.L) == size
+//@   trusted  fresh(result.L)
+//@ func ReleaseInt64List
+//@   mode bv
+//@ func GenerateUint64List
+//@   mode bv
+//@   requires size >= 0
+//@   ensures  result != nil && fresh(result) && len(result.L) == size
+//@   trusted  fresh(result.L)
+//@ func ReleaseUint64List
+//@   mode bv
+//
+// ---- integer lists (int_list.go, delta.go) ----
+//@ func ExtendListCapacity
+//@   mode bv
+//@   requires additionalItems >= 0
+//@   ensures  len(result) == len(dst) && cap(result) >= len(dst) + additionalItems
+//@   ensures  result[:] == old(dst[:])
+//@   ensures  (sameobj(result, dst) && off(result) == off(dst) && cap(result) == cap(dst)) || fresh(result)
+//@ func isConst
+//@   mode bv
+//@   ensures result == (len(a) > 0 && (forall k :: 0 <= k && k < len(a) ==> a[k] == a[0]))
+//@   loop 0 invariant forall k :: 0 <= k && k < range_i ==> a[k] == v1
+//@ func getSignBit
+//@   mode bv
+//@   ensures result == ite(n < 0, 1, 0)
+//@ func bytesDeltaToInt64List
+//@   mode bv
+//@   requires itemsCount >= 1
+//@   modifies dst[len(dst):cap(dst)]
+//@   ensures  result1 == nil ==> len(result0) == len(dst) + itemsCount
+//@   loop 0 invariant len(dst) == old(len(dst)) + 1 + range_i
+//@ func bytesDeltaOfDeltaToInt64s
+//@   mode bv
+//@   requires itemsCount >= 2
+//@   modifies dst[len(dst):cap(dst)]
+//@   ensures  result1 == nil ==> len(result0) == len(dst) + itemsCount
+//@   loop 0 invariant len(dst) == old(len(dst)) + 2 + range_i
+//@ func BytesToVarInt64
+//@   mode bv
+//@   inline BytesToVarInt64List
+//@   inline-loop BytesToVarInt64List 0 unroll 1
+//@   inline-loop BytesToVarInt64List 1 unroll 10
+//@   ensures  tail: result2 == nil ==> sameobj(result0, src) && len(result0) <= len(src)
+//@ func BytesToInt64List
+//@   mode bv
+//@   requires itemsCount >= 1 && (mt == EncodeTypeDeltaOfDelta ==> itemsCount >= 2)
+//@   modifies dst[len(dst):cap(dst)]
+//@   ensures  count: result1 == nil ==> len(result0) == len(dst) + itemsCount
+//@   loop 0 invariant itemsCount >= 0 && len(dst) + itemsCount == old(len(dst)) + old(itemsCount)
+//@   loop 0 decreases itemsCount
+//@   loop 1 invariant itemsCount >= 0 && len(dst) + itemsCount == old(len(dst)) + old(itemsCount)
+//@   loop 1 decreases itemsCount
+//
+// ---- byte strings and adaptive-width unsigned blocks (bytes.go) ----
+//@ spec func u64at(t byte, body []byte, k int) uint64 =
+//@     ite(t == 0, uint64(body[k]), ite(t == 1, uint64(be16(body[2*k:])), ite(t == 2, uint64(be32(body[4*k:])), be64(body[8*k:]))))
+//@ spec func u64width(t byte) int = ite(t == 0, 1, ite(t == 1, 2, ite(t == 2, 4, 8)))
+//
+//@ func VarUint64ToBytes
+//@   mode bv
+//@   modifies dst[len(dst):cap(dst)]
+//@   ensures  shape: appendShape(result, dst)
+//@   inline VarUint64sToBytes
+//@   inline-loop VarUint64sToBytes 0 unroll 1
+//@   inline-loop VarUint64sToBytes 1 unroll 10
+//@   ensures  grows:  len(result) > len(dst) && len(result) <= len(dst) + 10
+//@   ensures  prefix: result[:len(dst)] == old(dst[:])
+//@ func VarInt64ToBytes
+//@   mode bv
+//@   modifies dst[len(dst):cap(dst)]
+//@   ensures  shape: appendShape(result, dst)
+//@   inline VarInt64ListToBytes
+//@   inline-loop VarInt64ListToBytes 0 unroll 1
+//@   inline-loop VarInt64ListToBytes 1 unroll 10
+//@   ensures  grows:  len(result) > len(dst) && len(result) <= len(dst) + 10
+//@   ensures  prefix: result[:len(dst)] == old(dst[:])
+//@ func EncodeBytes
+//@   mode bv
+//@   modifies dst[len(dst):cap(dst)]
+//@   ensures  shape: appendShape(result, dst)
+//@   ensures  len(result) > len(dst) + len(b)
+//@ func DecodeBytes
+//@   mode bv
+//@   ensures  result2 == nil ==> sameobj(result0, src) && sameobj(result1, src) && len(result0) + len(result1) <= len(src)
+//@ func encodeUint64List
+//@   mode int
+//@   modifies dst[len(dst):cap(dst)]
+//@   ensures  shape: appendShape(result, dst)
+//@   ensures  shape:  len(result) == len(dst) + 1 + u64width(result[len(dst)]) * len(a) && result[len(dst)] <= 3
+//@   ensures  prefix: result[:len(dst)] == old(dst[:])
+//@   ensures  values: forall k :: 0 <= k && k < len(a) ==> u64at(result[len(dst)], result[len(dst)+1:], k) == a[k]
+//@   loop 0 invariant forall k :: 0 <= k && k < range_i ==> a[k] <= nMax
+//@   loop 1 invariant appendShape(dst, old(dst))
+//@   loop 1 invariant len(dst) == old(len(dst)) + 1 + range_i && dst[old(len(dst))] == 0 && dst[:old(len(dst))] == old(dst[:])
+//@   loop 1 invariant forall k :: 0 <= k && k < range_i ==> uint64(dst[old(len(dst))+1+k]) == a[k]
+//@   loop 2 invariant appendShape(dst, old(dst))
+//@   loop 2 invariant bound: forall k :: 0 <= k && k < len(a) ==> a[k] < 65536
+//@   loop 2 invariant len(dst) == old(len(dst)) + 1 + 2*range_i && dst[old(len(dst))] == 1 && dst[:old(len(dst))] == old(dst[:])
+//@   loop 2 invariant forall k :: 0 <= k && k < range_i ==> uint64(be16(dst[old(len(dst))+1+2*k:])) == a[k]
+//@   loop 3 invariant appendShape(dst, old(dst))
+//@   loop 3 invariant bound: forall k :: 0 <= k && k < len(a) ==> a[k] < 4294967296
+//@   loop 3 invariant len(dst) == old(len(dst)) + 1 + 4*range_i && dst[old(len(dst))] == 2 && dst[:old(len(dst))] == old(dst[:])
+//@   loop 3 invariant forall k :: 0 <= k && k < range_i ==> uint64(be32(dst[old(len(dst))+1+4*k:])) == a[k]
+//@   loop 4 invariant appendShape(dst, old(dst))
+//@   loop 4 invariant len(dst) == old(len(dst)) + 1 + 8*range_i && dst[old(len(dst))] == 3 && dst[:old(len(dst))] == old(dst[:])
+//@   loop 4 invariant forall k :: 0 <= k && k < range_i ==> be64(dst[old(len(dst))+1+8*k:]) == a[k]
+//@ func decodeUint64List
+//@   mode int
+//@   modifies dst[len(dst):cap(dst)]
+//@   ensures  count:  result1 == nil && itemsCount < (1<<56) ==> len(result0) == len(dst) + int(itemsCount) && len(src) >= 1 && src[0] <= 3
+//@   ensures  prefix: result0[:len(dst)] == old(dst[:])
+//@   ensures  values: result1 == nil && itemsCount < (1<<56) ==> (forall k :: 0 <= k && k < int(itemsCount) ==> result0[len(dst)+k] == u64at(src[0], src[1:], k))
+//@   loop 0 invariant appendShape(dst, old(dst)) && len(dst) == old(len(dst)) + range_i && dst[:old(len(dst))] == old(dst[:])
+//@   loop 0 invariant forall k :: 0 <= k && k < range_i ==> dst[old(len(dst))+k] == uint64(old(src[1:])[k])
+//@   loop 1 invariant appendShape(dst, old(dst)) && dst[:old(len(dst))] == old(dst[:]) && sameobj(src, old(src))
+//@   loop 1 invariant len(src) % 2 == 0 && (itemsCount < (1<<56) ==> len(dst) - old(len(dst)) + len(src)/2 == int(itemsCount)) && off(src) == off(old(src)) + 1 + 2*(len(dst) - old(len(dst)))
+//@   loop 1 invariant forall k :: 0 <= k && k < len(dst) - old(len(dst)) ==> dst[old(len(dst))+k] == uint64(be16(old(src[1:])[2*k:]))
+//@   loop 1 decreases len(src)
+//@   loop 2 invariant appendShape(dst, old(dst)) && dst[:old(len(dst))] == old(dst[:]) && sameobj(src, old(src))
+//@   loop 2 invariant len(src) % 4 == 0 && (itemsCount < (1<<56) ==> len(dst) - old(len(dst)) + len(src)/4 == int(itemsCount)) && off(src) == off(old(src)) + 1 + 4*(len(dst) - old(len(dst)))
+//@   loop 2 invariant forall k :: 0 <= k && k < len(dst) - old(len(dst)) ==> dst[old(len(dst))+k] == uint64(be32(old(src[1:])[4*k:]))
+//@   loop 2 decreases len(src)
+//@   loop 3 invariant appendShape(dst, old(dst)) && dst[:old(len(dst))] == old(dst[:]) && sameobj(src, old(src))
+//@   loop 3 invariant len(src) % 8 == 0 && (itemsCount < (1<<56) ==> len(dst) - old(len(dst)) + len(src)/8 == int(itemsCount)) && off(src) == off(old(src)) + 1 + 8*(len(dst) - old(len(dst)))
+//@   loop 3 invariant forall k :: 0 <= k && k < len(dst) - old(len(dst)) ==> dst[old(len(dst))+k] == be64(old(src[1:])[8*k:])
+//@   loop 3 decreases len(src)
+//@   ensures  shape: appendShape(result0, dst) && len(result0) >= len(dst)
+//@   ensures  accepts: len(src) >= 1 && src[0] <= 3 && itemsCount < (1<<56) && uint64(len(src)) == 1 + uint64(u64width(src[0])) * itemsCount ==> result1 == nil
+//
+// ---- compressed blocks (zstd is external: assumed) ----
+//@ func zstd.Compress
+//@   assumed external compressor (github.com/klauspost/compress/zstd wrapper); appends to dst
+//@   modifies dst[len(dst):cap(dst)]
+//@   ensures  appendShape(result, dst) && len(result) >= len(dst)
+//@ func zstd.Decompress
+//@   assumed external decompressor: returns an error or a value for arbitrary bytes, never faults; appends to dst
+//@   modifies dst[len(dst):cap(dst)]
+//@   ensures  appendShape(result0, dst) && len(result0) >= len(dst)
+//@ func compressBlock
+//@   mode int
+//@   requires disjoint(dst, src)
+//@   modifies dst[len(dst):cap(dst)]
+//@   ensures  shape: appendShape(result, dst) && len(result) > len(dst)
+//@   ensures  prefix: result[:len(dst)] == old(dst[:])
+//@   ensures  plainhdr: len(src) < 128 ==> len(result) == len(dst) + 2 + len(src) && result[len(dst)] == 0 && int(result[len(dst)+1]) == len(src)
+//@   ensures  plainbody: len(src) < 128 ==> result[len(dst)+2:] == old(src[:])
+//@ func decompressBlock
+//@   mode int
+//@   modifies dst[len(dst):cap(dst)]
+//@   ensures  shape: appendShape(result0, dst) && len(result0) >= len(dst)
+//@   ensures  tail:  sameobj(result1, src) && len(result1) <= len(src)
+//@   ensures  plainok: len(src) >= 2 && old(src[0]) == 0 && int(old(src[1])) <= len(src) - 2 ==> result2 == nil && len(result0) == len(dst) + int(old(src[1])) && len(result1) == len(src) - 2 - int(old(src[1]))
+//@   ensures  prefix: result0[:len(dst)] == old(dst[:])
+//@   ensures  plainbody: len(src) >= 2 && old(src[0]) == 0 && int(old(src[1])) <= len(src) - 2 ==> result0[len(dst):] == old(src[2:2+int(src[1])])
+//@ func EncodeUint64Block
+//@   mode int
+//@   modifies dst[len(dst):cap(dst)]
+//@   ensures  shape: appendShape(result, dst) && len(result) > len(dst)
+//@ func DecodeUint64Block
+//@   mode int
+//@   modifies dst[len(dst):cap(dst)]
+//@   ensures  shape: appendShape(result0, dst) && len(result0) >= len(dst)
+//@   ensures  tail:  sameobj(result1, src) && len(result1) <= len(src)
+//@   ensures  count: result2 == nil && itemsCount < (1<<56) ==> len(result0) == len(dst) + int(itemsCount)
+//
+// ---- dictionary (dictionary.go) ----
+//@ func valuesEqual
+//@   mode int
+//@   ensures result == ((a == nil && b == nil) || (a != nil && b != nil && a[:] == b[:]))
+//@ func encodeRLE
+//@   mode int
+//@   modifies dst[len(dst):cap(dst)]
+//@   ensures  len(src) == 0 ==> result == nil
+//@   ensures  len(src) > 0 ==> (len(result) - len(dst)) % 2 == 0 && len(result) >= len(dst) + 2
+//@   loop 0 invariant 1 <= i && i <= len(src) && (len(dst) - old(len(dst))) % 2 == 0 && len(dst) >= old(len(dst))
+//@   loop 0 invariant sameobj(dst, old(dst)) && off(dst) == off(old(dst)) && cap(dst) == cap(old(dst)) || fresh(dst)
+//@ func decodeRLE
+//@   mode int
+//@   requires pairs: len(src) % 2 == 0
+//@   requires disjoint(dst, src)
+//@   modifies dst[len(dst):cap(dst)]
+//@   ensures  len(src) == 0 ==> result == nil
+//@   loop 0 invariant 0 <= i && i <= len(src) && i % 2 == 0 && len(dst) >= old(len(dst))
+//@   loop 0 invariant sameobj(dst, old(dst)) && off(dst) == off(old(dst)) && cap(dst) == cap(old(dst)) || fresh(dst)
+//@   loop 0 decreases len(src) - i
+//@   loop 1 invariant 0 <= j && j <= count && len(dst) >= old(len(dst))
+//@   loop 1 invariant sameobj(dst, old(dst)) && off(dst) == off(old(dst)) && cap(dst) == cap(old(dst)) || fresh(dst)
+//@   loop 1 decreases count - j
+//
+// bit packing sits on the Reader/Writer bit streams over io interfaces (not modelled): assumed
+//@ func decodeBitPacking
+//@   assumed bit-stream reader over io.ByteReader is outside the modelled subset; returns an error or a value
+//@   modifies dst[len(dst):cap(dst)]
+//@   ensures  result1 != nil || result0 == nil || fresh(result0) || (sameobj(result0, dst) && off(result0) == off(dst) && cap(result0) == cap(dst) && len(result0) >= len(dst))
+//@ func encodeBitPacking
+//@   assumed bit-stream writer over bytes.Buffer is outside the modelled subset
+//@   ensures  result == nil || fresh(result)
+//@ func Dictionary.Add
+//@   mode int
+//@   requires d != nil
+//@   modifies d.values
+//@   modifies d.indices
+//@   ensures  limit: old(len(d.values)) <= 256 ==> len(d.values) <= 256
+//@   ensures  result ==> len(d.indices) == old(len(d.indices)) + 1
+//@   ensures  !result ==> len(d.indices) == old(len(d.indices)) && len(d.values) == old(len(d.values))
+//@   loop 0 invariant samehdr(d.indices, old(d.indices)) && samehdr(d.values, old(d.values))
+//@ func Dictionary.decodeBytesBlockWithTail
+//@   mode int
+//@   requires d != nil
+//@   modifies d.values
+//@   ensures  result2 == nil && itemsCount < (1<<56) ==> len(result0) == int(itemsCount)
+//@   ensures  result2 == nil ==> sameobj(result1, src) && len(result1) <= len(src)
+//@   loop 0 invariant len(data) >= 0 && (len(dst) == range_i) && (sameobj(dst, old(d.values)) && off(dst) == off(old(d.values)) && cap(dst) == cap(old(d.values)) || fresh(dst))
+//@ func validateRLE
+//@   mode int
+//@   ensures  result == nil ==> len(rle) % 2 == 0
+//@   loop 0 invariant 0 <= i && i <= len(rle) && i % 2 == 0 && total <= itemsCount
+//@   loop 0 decreases len(rle) - i
+//@ func Dictionary.Decode
+//@   mode int
+//@   requires d != nil && disjoint(d.indices, d.tmp)
+//@   modifies d.values
+//@   modifies d.indices
+//@   modifies d.tmp
+//@   modifies dst[len(dst):cap(dst)]
+//@   ensures  result1 == nil ==> len(result0) >= len(dst)
+//@   loop 0 invariant len(dst) >= old(len(dst))
+//@   loop 0 invariant sameobj(dst, old(dst)) && off(dst) == off(old(dst)) && cap(dst) == cap(old(dst)) || fresh(dst)
